@@ -319,6 +319,13 @@ func (i *Index) coversOrdCols(ordExps []*OrdExp, rangesByColID map[uint32]*typed
 	if !ordExpsHaveSameDirection(ordExps) {
 		return false
 	}
+	// an index scan yields NULLs first ascending and last descending: an explicit
+	// NULLS FIRST / NULLS LAST asking for the opposite needs the sort reader
+	for _, e := range ordExps {
+		if e.nullsOrder != NullsDefault && (e.nullsOrder == NullsFirst) == e.descOrder {
+			return false
+		}
+	}
 	return i.hasPrefix(i.cols, ordExps) || i.sortableUsing(ordExps, rangesByColID)
 }
 
